@@ -2,6 +2,9 @@
   C06 — The server dispatches exactly the authentic, non-duplicate requests and answers them.
   About the datagram pipeline (`classify`) and the dedup table of RV.Model.Server, for every
   schedule and any number of datagrams; the reply's authenticator goes through C03.
+  Trace-level statements (`handler_only_if_parsed`, `handler_start_once_and_fresh`, `request_carries`,
+  `reply_on_receiving_socket`, `exactly_once_per_datagram`) are about the log of every reachable state:
+  which step of the schedule an event came from and what the goroutine had captured (`St.origin`).
 -/
 import RV.Model.Server
 import RV.Proofs.Server
@@ -61,13 +64,227 @@ theorem released_after_return (H : Hash) (cfg : Cfg) (conns : List Nat) (nD : Na
     ∃ s', step H cfg (run H cfg (initWith conns nD) ls) (.taskFinish t) = some s' ∧ key ∉ s'.inflight.getD i [] := by
   exact released_after_return' H cfg conns nD ls t i key ht
 
-/-- The handler never sees a packet the parser rejects (server clause of C02): every handlerStart
-    event belongs to a goroutine whose datagram was classified `handle`. -/
+/-- The handler never sees a packet the parser rejects (server clause of C02), in every reachable
+    state and under every schedule: a `handlerStart t key` event in the log belongs to a goroutine
+    that (old conclusion) is in its handler or done, and that was spawned — as the `t`-th goroutine —
+    by an enabled `serveRecv i peer d` step of the schedule whose datagram the pipeline classified
+    `handle key p`: the secret source answered `peer` with a non-empty secret, the datagram is
+    authentic under it (unless checking is disabled) and parses to `p`; the key is (source, identifier). -/
 theorem handler_only_if_parsed (H : Hash) (cfg : Cfg) (conns : List Nat) (nD : Nat) (ls : List Label) (t : Nat) (key : Key)
     (h : Event.handlerStart t key ∈ (run H cfg (initWith conns nD) ls).log) :
-    ∃ i, (run H cfg (initWith conns nD) ls).tasks[t]? = some ⟨i, .inHandler key⟩ ∨
-         (run H cfg (initWith conns nD) ls).tasks[t]? = some ⟨i, .done⟩ := by
-  exact (InvG_run H cfg conns nD ls).log t key h
+    (∃ i, (run H cfg (initWith conns nD) ls).tasks[t]? = some ⟨i, .inHandler key⟩ ∨
+          (run H cfg (initWith conns nD) ls).tasks[t]? = some ⟨i, .done⟩) ∧
+    ∃ (i peer : Nat) (d : Bytes) (p : Packet),
+      (∃ ls1 ls2 s1', ls = ls1 ++ Label.serveRecv i peer d :: ls2 ∧
+          step H cfg (run H cfg (initWith conns nD) ls1) (.serveRecv i peer d) = some s1' ∧
+          (run H cfg (initWith conns nD) ls1).tasks.length = t) ∧
+      Event.recv t i peer d ∈ (run H cfg (initWith conns nD) ls).log ∧
+      (run H cfg (initWith conns nD) ls).origin[t]? = some ⟨i, peer, d⟩ ∧
+      classify H cfg peer d = .handle key p ∧
+      ∃ sec, cfg.secretOf peer = .secret sec ∧ sec ≠ [] ∧
+        (cfg.skipVerify = true ∨ isAuthenticRequest H d sec = true) ∧
+        parse d sec = .ok p ∧ key = (peer, p.id) := by
+  refine ⟨(InvG_run H cfg conns nD ls).log t key h, ?_⟩
+  have hO := InvO_run H cfg conns nD ls
+  obtain ⟨⟨i, peer, d⟩, p, ho, hcl, _⟩ := hO.hs t key h
+  simp only at hcl
+  have hrecv := (recv_mem_iff hO t i peer d).mpr ho
+  obtain ⟨ls1, l, ls2, s1', hls, hst, _, hnew⟩ :=
+    log_provenance H cfg _ ls (initWith conns nD) hrecv (by simp [initWith])
+  obtain ⟨rfl, hlen⟩ := newEv_recv hnew
+  exact ⟨i, peer, d, p, ⟨ls1, ls2, s1', hls, hst, hlen.symm⟩, hrecv, ho, hcl,
+    (classify_handle_iff' H cfg peer d key p).mp hcl⟩
+
+/-- how often the handler has been started for goroutine `t` (number of `handlerStart t _` events) -/
+def handlerStarts (s : St) (t : Nat) : Nat := hsCount s t
+
+/-- At most once per datagram, at trace level: in every reachable state the log holds at most one
+    `handlerStart t _` event for any goroutine `t`. -/
+theorem handler_start_at_most_once (H : Hash) (cfg : Cfg) (conns : List Nat) (nD : Nat) (ls : List Label) (t : Nat) :
+    handlerStarts (run H cfg (initWith conns nD) ls) t ≤ 1 :=
+  InvC_hsCount_le (InvC_run H cfg conns nD ls) t
+
+/-- The handler is started once per goroutine and only while its key is free: a `handlerStart t key`
+    event is the only `handlerStart t _` event of the log, and it was appended by a `taskRun t` step of
+    the schedule taken in a state in which goroutine `t` had not yet run, its datagram had been classified
+    `handle key p`, and `key` was NOT in the dedup table of its Serve call at that moment. -/
+theorem handler_start_once_and_fresh (H : Hash) (cfg : Cfg) (conns : List Nat) (nD : Nat) (ls : List Label)
+    (t : Nat) (key : Key)
+    (h : Event.handlerStart t key ∈ (run H cfg (initWith conns nD) ls).log) :
+    handlerStarts (run H cfg (initWith conns nD) ls) t = 1 ∧
+    (∀ key', Event.handlerStart t key' ∈ (run H cfg (initWith conns nD) ls).log → key' = key) ∧
+    ∃ ls1 ls2 i p s1', ls = ls1 ++ Label.taskRun t :: ls2 ∧
+      (run H cfg (initWith conns nD) ls1).tasks[t]? = some ⟨i, .spawned (.handle key p)⟩ ∧
+      key ∉ (run H cfg (initWith conns nD) ls1).inflight.getD i [] ∧
+      (∀ k, Event.handlerStart t k ∉ (run H cfg (initWith conns nD) ls1).log) ∧
+      step H cfg (run H cfg (initWith conns nD) ls1) (.taskRun t) = some s1' ∧
+      s1'.tasks[t]? = some ⟨i, .inHandler key⟩ ∧ key ∈ s1'.inflight.getD i [] := by
+  have hC := InvC_run H cfg conns nD ls
+  refine ⟨?_, fun key' h' => hs_key_unique hC h' h, ?_⟩
+  · have h1 := hsCount_pos h
+    have h2 := InvC_hsCount_le hC t
+    simp only [handlerStarts]; omega
+  · obtain ⟨ls1, l, ls2, s1', hls, hst, _, hnew⟩ :=
+      log_provenance H cfg _ ls (initWith conns nD) h (by simp [initWith])
+    obtain ⟨rfl, i, p, ht, hfree⟩ := newEv_handlerStart hnew
+    refine ⟨ls1, ls2, i, p, s1', hls, ht, hfree, ?_, hst, ?_⟩
+    · intro k hk
+      obtain ⟨i', h1 | h1⟩ := (InvG_run H cfg conns nD ls1).log t k hk
+      · rw [ht] at h1; cases h1
+      · rw [ht] at h1; cases h1
+    · obtain ⟨i', fate', ht', hh | hh⟩ := step_taskRun hst
+      · rw [ht] at ht'; cases ht'
+        obtain ⟨key', p', he, _, rfl⟩ := hh
+        cases he
+        have htl := lt_of_getElem?_eq_some ht
+        have hil : i < (run H cfg (initWith conns nD) ls1).inflight.length := by
+          rw [(InvG_run H cfg conns nD ls1).len]; exact (InvG_run H cfg conns nD ls1).bound t _ ht
+        refine ⟨by simp [htl], ?_⟩
+        simp [hil]
+      · rw [ht] at ht'; cases ht'
+        exact absurd ⟨key, p, rfl, hfree⟩ hh.1
+
+/-- Conversely (with `handler_iff`): in a reachable state a goroutine whose datagram was classified
+    `handle key p` and whose key is free DOES get the handler when it runs — the step appends the
+    request (parsed packet, the datagram's source address, the conn of the Serve call that read it,
+    the server's context) and the `handlerStart` event, and puts the key in flight. -/
+theorem handler_started_if_free (H : Hash) (cfg : Cfg) (conns : List Nat) (nD : Nat) (ls : List Label)
+    (t i : Nat) (key : Key) (p : Packet)
+    (ht : (run H cfg (initWith conns nD) ls).tasks[t]? = some ⟨i, .spawned (.handle key p)⟩)
+    (hfree : key ∉ (run H cfg (initWith conns nD) ls).inflight.getD i []) :
+    ∃ peer d s', (run H cfg (initWith conns nD) ls).origin[t]? = some ⟨i, peer, d⟩ ∧
+      classify H cfg peer d = .handle key p ∧
+      step H cfg (run H cfg (initWith conns nD) ls) (.taskRun t) = some s' ∧
+      s'.tasks[t]? = some ⟨i, .inHandler key⟩ ∧
+      s'.log = (run H cfg (initWith conns nD) ls).log ++
+        [.request t p peer (conns.getD i 0) .server, .handlerStart t key] := by
+  have hO := InvO_run H cfg conns nD ls
+  obtain ⟨⟨i', peer, d⟩, ho, hio⟩ := origin_of_task hO ht
+  simp only at hio; subst hio
+  have hf := hO.fate t i _ _ ht ho
+  simp only at hf
+  obtain ⟨s', hs⟩ := taskRun_enabled (H := H) (cfg := cfg) ht
+  refine ⟨peer, d, s', ho, hf.symm, hs, ?_⟩
+  obtain ⟨i', fate', ht', hh | hh⟩ := step_taskRun hs
+  · rw [ht] at ht'; cases ht'
+    obtain ⟨key', p', he, _, rfl⟩ := hh
+    cases he
+    refine ⟨by simp [lt_of_getElem?_eq_some ht], ?_⟩
+    simp only [peerOf_eq ho, connOf_run]
+  · rw [ht] at ht'; cases ht'
+    exact absurd ⟨key, p, rfl, hfree⟩ hh.1
+
+/-- The request handed to the handler: a `request` event carries the packet the datagram parses to
+    under the peer's secret (with that secret), the datagram's source address as `RemoteAddr`, the
+    conn of the Serve call that read the datagram as local address, and the server's context; and the
+    handler was started for exactly this goroutine. -/
+theorem request_carries (H : Hash) (cfg : Cfg) (conns : List Nat) (nD : Nat) (ls : List Label)
+    (t : Nat) (p : Packet) (remote localConn : Nat) (ctx : Ctx)
+    (h : Event.request t p remote localConn ctx ∈ (run H cfg (initWith conns nD) ls).log) :
+    ∃ (i : Nat) (d : Bytes) (key : Key) (sec : Bytes),
+      Event.recv t i remote d ∈ (run H cfg (initWith conns nD) ls).log ∧
+      (run H cfg (initWith conns nD) ls).origin[t]? = some ⟨i, remote, d⟩ ∧
+      classify H cfg remote d = .handle key p ∧
+      cfg.secretOf remote = .secret sec ∧ parse d sec = .ok p ∧ p.secret = sec ∧
+      localConn = conns.getD i 0 ∧ ctx = .server ∧
+      Event.handlerStart t key ∈ (run H cfg (initWith conns nD) ls).log := by
+  have hO := InvO_run H cfg conns nD ls
+  obtain ⟨⟨i, peer, d⟩, key, ho, hcl, hpe, hc, hx, hhs⟩ := hO.req t p remote localConn ctx h
+  simp only at hcl hc hpe
+  subst hpe
+  obtain ⟨sec, hs, _, _, hp, _⟩ := (classify_handle_iff' H cfg remote d key p).mp hcl
+  rw [connOf_run] at hc
+  exact ⟨i, d, key, sec, (recv_mem_iff hO t i remote d).mpr ho, ho, hcl, hs, hp, (parse_secret hp).1, hc, hx, hhs⟩
+
+/-- every started handler was handed such a request -/
+theorem handler_start_has_request (H : Hash) (cfg : Cfg) (conns : List Nat) (nD : Nat) (ls : List Label)
+    (t : Nat) (key : Key)
+    (h : Event.handlerStart t key ∈ (run H cfg (initWith conns nD) ls).log) :
+    ∃ (i peer : Nat) (d : Bytes) (p : Packet),
+      (run H cfg (initWith conns nD) ls).origin[t]? = some ⟨i, peer, d⟩ ∧
+      Event.request t p peer (conns.getD i 0) .server ∈ (run H cfg (initWith conns nD) ls).log := by
+  obtain ⟨⟨i, peer, d⟩, p, ho, _, hr⟩ := (InvO_run H cfg conns nD ls).hs t key h
+  rw [connOf_run] at hr
+  exact ⟨i, peer, d, p, ho, hr⟩
+
+/-- the context of a request is the server's: once Shutdown has been requested it is cancelled -/
+theorem request_ctx_cancelled_by_shutdown (H : Hash) (cfg : Cfg) (hv : cfg.variant = .fixed) (conns : List Nat)
+    (nD : Nat) (ls : List Label) (t : Nat) (p : Packet) (remote localConn : Nat) (ctx : Ctx)
+    (h : Event.request t p remote localConn ctx ∈ (run H cfg (initWith conns nD) ls).log)
+    (hsd : (run H cfg (initWith conns nD) ls).sd = true) :
+    (run H cfg (initWith conns nD) ls).ctxEnded ctx = true := by
+  obtain ⟨_, _, _, _, _, _, hx, _⟩ := (InvO_run H cfg conns nD ls).req t p remote localConn ctx h
+  subst hx
+  exact ((InvF_run H cfg hv conns nD ls).sdc hsd).1
+
+/-- The reply goes out on the receiving socket to the request's source address: every `reply` event
+    of goroutine `t` names the conn of the Serve call that read `t`'s datagram and the address that
+    datagram came from; it was written by a `taskReply t` step while `t`'s handler was running. -/
+theorem reply_on_receiving_socket (H : Hash) (cfg : Cfg) (conns : List Nat) (nD : Nat) (ls : List Label)
+    (t conn addr : Nat)
+    (h : Event.reply t conn addr ∈ (run H cfg (initWith conns nD) ls).log) :
+    ∃ (i peer : Nat) (d : Bytes) (key : Key),
+      Event.recv t i peer d ∈ (run H cfg (initWith conns nD) ls).log ∧
+      (run H cfg (initWith conns nD) ls).origin[t]? = some ⟨i, peer, d⟩ ∧
+      (∃ pc, (run H cfg (initWith conns nD) ls).tasks[t]? = some ⟨i, pc⟩) ∧
+      conn = conns.getD i 0 ∧ addr = peer ∧
+      Event.handlerStart t key ∈ (run H cfg (initWith conns nD) ls).log ∧
+      ∃ ls1 ls2, ls = ls1 ++ Label.taskReply t :: ls2 ∧
+        (run H cfg (initWith conns nD) ls1).tasks[t]? = some ⟨i, .inHandler key⟩ := by
+  have hO := InvO_run H cfg conns nD ls
+  obtain ⟨⟨i, peer, d⟩, key, ho, ha, hc, hhs⟩ := hO.rep t conn addr h
+  simp only at ha hc
+  rw [connOf_run] at hc
+  have htl : t < (run H cfg (initWith conns nD) ls).tasks.length := by
+    rw [← hO.len]; exact lt_of_getElem?_eq_some ho
+  have htk := List.getElem?_eq_getElem htl
+  have hserve := hO.serve t _ _ htk ho
+  simp only at hserve
+  obtain ⟨ls1, l, ls2, s1', hls, hst, _, hnew⟩ :=
+    log_provenance H cfg _ ls (initWith conns nD) h (by simp [initWith])
+  obtain ⟨rfl, i1, key1, ht1, _, _⟩ := newEv_reply hnew
+  -- the goroutine that replied is in the handler whose start is in the log; same Serve call
+  have hO1 := InvO_run H cfg conns nD ls1
+  obtain ⟨o1, ho1, hio1⟩ := origin_of_task hO1 ht1
+  simp only at hio1
+  have hhs1 := hO1.inH t i1 key1 ht1
+  have hhs1' : Event.handlerStart t key1 ∈ (run H cfg (initWith conns nD) ls).log := by
+    rw [hls, run_append]
+    exact run_log_mono H cfg _ _ _ hhs1
+  have hk : key1 = key := hs_key_unique (InvC_run H cfg conns nD ls) hhs1' hhs
+  subst hk
+  have hrecv1 : Event.recv t o1.serve o1.peer o1.dgram ∈ (run H cfg (initWith conns nD) ls).log := by
+    rw [hls, run_append]
+    exact run_log_mono H cfg _ _ _ ((recv_mem_iff hO1 t _ _ _).mpr ho1)
+  have ho' := (recv_mem_iff hO t _ _ _).mp hrecv1
+  rw [ho] at ho'
+  have hi : i = o1.serve := by cases ho'; rfl
+  refine ⟨i, peer, d, key1, (recv_mem_iff hO t i peer d).mpr ho, ho,
+    ⟨((run H cfg (initWith conns nD) ls).tasks[t]).pc, ?_⟩, hc, ha, hhs, ls1, ls2, hls, ?_⟩
+  · rw [htk]; congr 1
+    cases hh : (run H cfg (initWith conns nD) ls).tasks[t] with
+    | mk a b => rw [hh] at hserve; simp only at hserve; subst hserve; rfl
+  · rw [hi, ← hio1]; exact ht1
+
+/-- Exactly once per datagram, at trace level.  In every reachable state:
+    * the goroutines are the enabled `serveRecv` steps the schedule took, one `recv` event each, in
+      order, carrying what the goroutine captured;
+    * for every goroutine `t` the numbers of `handlerStart t _`, `dropped t` and `handlerEnd t` events
+      are: 0,0,0 before it runs; 1,0,0 while its handler runs; afterwards either the handler was
+      started once and returned once, or the datagram was dropped once — never both, never twice. -/
+theorem exactly_once_per_datagram (H : Hash) (cfg : Cfg) (conns : List Nat) (nD : Nat) (ls : List Label) :
+    let s := run H cfg (initWith conns nD) ls
+    s.tasks.length = recvSteps H cfg (initWith conns nD) ls ∧
+    (s.log.filter isRecv).length = s.tasks.length ∧
+    s.log.filter isRecv = s.origin.mapIdx recvOf ∧
+    ∀ t, handlerStarts s t ≤ 1 ∧
+      countSpec (s.tasks[t]?.map (·.pc)) (handlerStarts s t) (dropCount s t) (endCount s t) := by
+  have hO := InvO_run H cfg conns nD ls
+  have hC := InvC_run H cfg conns nD ls
+  refine ⟨?_, ?_, hO.recvs, fun t => ⟨InvC_hsCount_le hC t, hC t⟩⟩
+  · have := tasks_length_run H cfg ls (initWith conns nD)
+    simpa [initWith] using this
+  · rw [hO.recvs, List.length_mapIdx, hO.len]
 
 /-- A reply written by the handler (Response of the request, any attributes, a reply code) encodes
     with a response authenticator that is valid for the request datagram under the peer's secret. -/
@@ -78,5 +295,77 @@ theorem reply_authentic (H : Hash) (hH : ∀ x, (H x).length = 16) (cfg : Cfg) (
     (he : encode H { response p code with attrs := attrs } = .ok w) :
     isAuthenticResponse H w d p.secret = true := by
   exact reply_authentic' H hH cfg peer d key p code attrs w h hc he
+
+/-! ### Non-vacuity: concrete reachable states in which the hypotheses above hold
+
+  One Serve call on conn 3; the hash is the constant sixteen zero octets, every peer has the secret
+  `[1]`; the datagram is an Access-Request with identifier 7 (see `classify_example`, `classify_example5`). -/
+
+local notation "H0" => ((fun _ => zeros 16) : Hash)
+local notation "cfg0" => (Cfg.mk Variant.fixed false (fun _ => SecretAns.secret [1]))
+local notation "dg0" => (([1, 7, 0, 20] ++ zeros 16) : Bytes)
+local notation "p0" => (Packet.mk 1 7 (zeros 16) [1] [])
+
+/-- hypothesis of `handler_only_if_parsed`, `handler_start_once_and_fresh`, `handler_start_has_request` -/
+example : Event.handlerStart 0 (0, 7) ∈ (run H0 cfg0 (initWith [3] 1)
+    [.serveEnter 0, .serveRecv 0 0 dg0, .taskRun 0]).log := by
+  simp only [run, step, classify_example]
+  decide
+
+/-- hypotheses of `handler_started_if_free` (and of `handler_iff`): spawned, classified `handle`, key free -/
+example :
+    let s := run H0 cfg0 (initWith [3] 1) [.serveEnter 0, .serveRecv 0 0 dg0]
+    s.tasks[0]? = some ⟨0, .spawned (.handle (0, 7) p0)⟩ ∧ (0, 7) ∉ s.inflight.getD 0 [] := by
+  simp only [run, step, classify_example]
+  decide
+
+/-- hypothesis of `request_carries`: the request names peer 5 and conn 3 and the server's context -/
+example : Event.request 0 p0 5 3 .server ∈ (run H0 cfg0 (initWith [3] 1)
+    [.serveEnter 0, .serveRecv 0 5 dg0, .taskRun 0]).log := by
+  simp only [run, step, classify_example5]
+  decide
+
+/-- hypothesis of `reply_on_receiving_socket`: the handler of goroutine 0 writes twice; both replies go
+    out on conn 3 to peer 5 -/
+example :
+    (run H0 cfg0 (initWith [3] 1)
+      [.serveEnter 0, .serveRecv 0 5 dg0, .taskRun 0, .taskReply 0, .taskReply 0, .taskFinish 0]).log =
+    [.recv 0 0 5 dg0, .request 0 p0 5 3 .server, .handlerStart 0 (5, 7), .reply 0 3 5, .reply 0 3 5,
+     .handlerEnd 0] := by
+  simp only [run, step, classify_example5]
+  decide
+
+/-- hypotheses of `request_ctx_cancelled_by_shutdown`: a request in the log and Shutdown requested -/
+example :
+    let s := run H0 cfg0 (initWith [3] 1) [.serveEnter 0, .serveRecv 0 5 dg0, .taskRun 0, .downEnter 0]
+    Event.request 0 p0 5 3 .server ∈ s.log ∧ s.sd = true ∧ Cfg.variant cfg0 = .fixed := by
+  simp only [run, step, classify_example5]
+  decide
+
+/-- `exactly_once_per_datagram` on a duplicate: the second datagram with the same (source, identifier)
+    arrives while the first handler runs and is dropped; the third, after the handler returned, is served -/
+example :
+    let s := run H0 cfg0 (initWith [3] 1)
+      [.serveEnter 0, .serveRecv 0 0 dg0, .serveRecv 0 0 dg0, .taskRun 0, .taskRun 1, .taskFinish 0,
+       .serveRecv 0 0 dg0, .taskRun 2]
+    (handlerStarts s 0, dropCount s 0, endCount s 0) = (1, 0, 1) ∧
+    (handlerStarts s 1, dropCount s 1, endCount s 1) = (0, 1, 0) ∧
+    (handlerStarts s 2, dropCount s 2, endCount s 2) = (1, 0, 0) ∧
+    s.tasks.length = 3 ∧ (s.log.filter isRecv).length = 3 := by
+  simp only [run, step, classify_example]
+  decide
+
+/-- hypotheses of `reply_authentic`: a hash with 16-byte output, a datagram the pipeline hands on, a
+    reply code (Access-Accept) and a reply that encodes -/
+example :
+    (∀ x, (H0 x).length = 16) ∧ classify H0 cfg0 0 dg0 = .handle (0, 7) p0 ∧
+    Rfc.encClass 2 = .hashReqAuth ∧
+    encode H0 { response p0 2 with attrs := [] } = .ok ([2, 7, 0, 20] ++ zeros 16) := by
+  refine ⟨by intro x; simp [zeros], classify_example, rfl, by decide⟩
+
+/-- … and its conclusion on that instance, obtained from the theorem -/
+example : isAuthenticResponse H0 ([2, 7, 0, 20] ++ zeros 16) dg0 (Packet.secret p0) = true :=
+  reply_authentic H0 (by intro x; simp [zeros]) cfg0 0 dg0 (0, 7) p0 2 [] ([2, 7, 0, 20] ++ zeros 16)
+    classify_example rfl (by decide)
 
 end RV.C06
